@@ -939,7 +939,8 @@ Lemma oread_u24_reader :
     3 (fun s => v24 (be_value (obytes_at s 1)) (be_value (obytes_at (adv s 1) 2))) (fun _ => True).
 Proof.
   change 3 with (1 + 2).
-  apply (oreader_seq oread_uint8 1 _ (fun _ => True) oread_uint16 2 _ (fun _ => True) v24);
+  apply (oreader_seq oread_uint8 1 (fun s => be_value (obytes_at s 1)) (fun _ => True)
+                     oread_uint16 2 (fun s => be_value (obytes_at s 2)) (fun _ => True) v24);
     try lia; auto using oread_uint8_reader, oread_uint16_reader.
 Qed.
 
@@ -950,7 +951,7 @@ Lemma v24_value s : olive s -> pos s + 3 <= size s ->
   v24 (be_value (obytes_at s 1)) (be_value (obytes_at (adv s 1) 2)) = be_value (obytes_at s 3).
 Proof.
   intros L H. pose proof L as (_ & L2 & _).
-  change 3 with (1 + 2) at 3. rewrite obytes_at_app by (auto; lia).
+  change (obytes_at s 3) with (obytes_at s (1 + 2)). rewrite obytes_at_app by (auto; lia).
   assert (LA : olive (adv s 1)) by (apply olive_adv'; auto; lia).
   pose proof (obytes_at_length s 1 L ltac:(lia) ltac:(lia)) as H1.
   pose proof (obytes_at_length (adv s 1) 2 LA ltac:(lia) ltac:(unfold adv; cbn [size pos]; lia)) as H2.
@@ -1003,4 +1004,709 @@ Proof.
       * unfold adv; cbn [size pos]. lia.
       * rewrite adv_adv. rewrite obytes_at_S by auto. cbn [lu_value].
         do 2 f_equal. f_equal. lia.
+Qed.
+
+(** ** every decoder call with a byte count known from its arguments *)
+
+Definition sext24 (t : Z) : Z :=
+  s32 (if Z.land t 8388608 =? 8388608 then u32 (t + 4278190080) else t).
+
+Definition odop_len (o : odop) : option Z :=
+  match o with
+  | RBytes _ n => Some n
+  | RU8 | RI8 | RBool => Some 1
+  | RU16 | RI16 => Some 2
+  | RU32 | RI32 | RFloat => Some 4
+  | RU64 | RI64 | RDouble => Some 8
+  | RUint n | RInt n => Some (if (1 <=? n) && (n <=? 4) then n else 0)
+  | RLongUint n => Some n
+  | RLenDet | RTag | RAbort _ => None
+  end.
+
+(** the value read when the octets are there *)
+Definition odop_val (s : cur) (o : odop) : list Z :=
+  match o with
+  | RBytes cap n => obytes_at s n ++ zeros (cap - n)
+  | RU8 => [be_value (obytes_at s 1)]
+  | RU16 => [be_value (obytes_at s 2)]
+  | RU32 | RFloat => [be_value (obytes_at s 4)]
+  | RU64 | RDouble => [be_value (obytes_at s 8)]
+  | RI8 => [s8 (be_value (obytes_at s 1))]
+  | RI16 => [s16 (be_value (obytes_at s 2))]
+  | RI32 => [s32 (be_value (obytes_at s 4))]
+  | RI64 => [s64 (be_value (obytes_at s 8))]
+  | RUint n => if (1 <=? n) && (n <=? 4) then [be_value (obytes_at s n)] else [4294967295]
+  | RInt n =>
+    if n =? 1 then [s8 (be_value (obytes_at s 1))]
+    else if n =? 2 then [s16 (be_value (obytes_at s 2))]
+    else if n =? 3 then [sext24 (be_value (obytes_at s 3))]
+    else if n =? 4 then [s32 (be_value (obytes_at s 4))]
+    else [2147483647]
+  | RLongUint n => [lu_value 0 (obytes_at s n)]
+  | RBool => [if be_value (obytes_at s 1) =? 0 then 0 else 1]
+  | RLenDet | RTag | RAbort _ => []
+  end.
+
+Definition odop_res_ok (o : odop) (v : list Z) : Prop :=
+  match o with RBytes cap _ => len v = cap | _ => True end.
+
+Lemma oreader_Q {A} (R : cur -> cres (cur * A)) k val (Q Q' : A -> Prop) :
+  oreader R k val Q -> (forall a, Q a -> Q' a) -> oreader R k val Q'.
+Proof.
+  intros (R1 & R2 & R3) H. split; [|split].
+  - intros s L. destruct (R1 s L) as (a & E & Qa). eauto.
+  - intros s L Hs. destruct (R2 s L Hs) as (a & E & Qa). eauto.
+  - intros s L Hs. destruct (R3 s L Hs) as (E & Qa). eauto.
+Qed.
+
+Lemma odop_reader o k : odop_ok o -> odop_len o = Some k ->
+  0 <= k /\ oreader (fun s => run_odop s o) k (fun s => odop_val s o) (odop_res_ok o).
+Proof.
+  intros Ok HK.
+  destruct o; cbn [odop_len odop_ok] in *; try discriminate; inversion HK; subst k; clear HK;
+    unfold run_odop, odop_val, odop_res_ok.
+  - (* RBytes *)
+    destruct Ok as (H1 & H2). split; [lia|].
+    assert (LZ : length (zeros cap) = Z.to_nat cap) by (unfold zeros; apply repeat_length).
+    eapply oreader_val.
+    + eapply oreader_Q; [apply (oread_bytes_reader (zeros cap) n); unfold len; lia|].
+      intros a Ha. cbv beta in Ha. unfold len. rewrite Ha, LZ. lia.
+    + intros s L H. cbv beta. f_equal. unfold zeros. rewrite skipn_repeat. f_equal. lia.
+  - split; [lia|]. apply (oreader_map oread_uint8 1 _ (fun v => [v])); [apply oread_uint8_reader|auto].
+  - split; [lia|]. apply (oreader_map oread_uint16 2 _ (fun v => [v])); [apply oread_uint16_reader|auto].
+  - split; [lia|]. apply (oreader_map oread_uint32 4 _ (fun v => [v])); [apply oread_uint32_reader|auto].
+  - split; [lia|]. apply (oreader_map oread_uint64 8 _ (fun v => [v])); [apply oread_uint64_reader|auto].
+  - split; [lia|]. apply (oreader_map oread_int8 1 _ (fun v => [v])); [apply oread_int8_reader|auto].
+  - split; [lia|]. apply (oreader_map oread_int16 2 _ (fun v => [v])); [apply oread_int16_reader|auto].
+  - split; [lia|]. apply (oreader_map oread_int32 4 _ (fun v => [v])); [apply oread_int32_reader|auto].
+  - split; [lia|]. apply (oreader_map oread_int64 8 _ (fun v => [v])); [apply oread_int64_reader|auto].
+  - (* RUint *)
+    unfold oread_uint. rewrite (u8_small n) by lia.
+    destruct (n =? 1) eqn:E1; [|destruct (n =? 2) eqn:E2; [|destruct (n =? 3) eqn:E3; [|destruct (n =? 4) eqn:E4]]].
+    + replace n with 1 by lia. split; [cbn; lia|]. cbn [Z.leb Z.compare Pos.compare andb].
+      apply (oreader_map oread_uint8 1 _ (fun v => [v])); [apply oread_uint8_reader|auto].
+    + replace n with 2 by lia. split; [cbn; lia|]. change ((1 <=? 2) && (2 <=? 4)) with true. cbv iota.
+      apply (oreader_map oread_uint16 2 _ (fun v => [v])); [apply oread_uint16_reader|auto].
+    + replace n with 3 by lia. split; [cbn; lia|]. change ((1 <=? 3) && (3 <=? 4)) with true. cbv iota.
+      eapply oreader_val.
+      * apply (oreader_map _ 3 (fun s => v24 (be_value (obytes_at s 1)) (be_value (obytes_at (adv s 1) 2)))
+                 (fun v => [v])); [apply oread_u24_reader|auto].
+      * intros s L H. cbv beta. now rewrite v24_value.
+    + replace n with 4 by lia. split; [cbn; lia|]. change ((1 <=? 4) && (4 <=? 4)) with true. cbv iota.
+      apply (oreader_map oread_uint32 4 _ (fun v => [v])); [apply oread_uint32_reader|auto].
+    + destruct ((1 <=? n) && (n <=? 4)) eqn:E; [lia|]. split; [lia|].
+      apply (oreader_map (fun s => COk (s, 4294967295)) 0 _ (fun v => [v])); [now apply oreader_const|auto].
+  - (* RInt *)
+    unfold oread_int. rewrite (u8_small n) by lia.
+    destruct (n =? 1) eqn:E1; [|destruct (n =? 2) eqn:E2; [|destruct (n =? 3) eqn:E3; [|destruct (n =? 4) eqn:E4]]].
+    + replace n with 1 by lia. split; [cbn; lia|]. change ((1 <=? 1) && (1 <=? 4)) with true. cbv iota.
+      apply (oreader_map oread_int8 1 _ (fun v => [v])); [apply oread_int8_reader|auto].
+    + replace n with 2 by lia. split; [cbn; lia|]. change ((1 <=? 2) && (2 <=? 4)) with true. cbv iota.
+      apply (oreader_map oread_int16 2 _ (fun v => [v])); [apply oread_int16_reader|auto].
+    + replace n with 3 by lia. split; [cbn; lia|]. change ((1 <=? 3) && (3 <=? 4)) with true. cbv iota.
+      eapply oreader_val.
+      * apply (oreader_map _ 3 (fun s => sext24 (v24 (be_value (obytes_at s 1)) (be_value (obytes_at (adv s 1) 2))))
+                 (fun v => [v])); [|auto].
+        change 3 with (1 + 2).
+        apply (oreader_seq oread_uint8 1 (fun s => be_value (obytes_at s 1)) (fun _ => True)
+                 oread_uint16 2 (fun s => be_value (obytes_at s 2)) (fun _ => True)
+                 (fun a b => sext24 (v24 a b)) (fun _ => True));
+          try lia; auto using oread_uint8_reader, oread_uint16_reader.
+      * intros s L H. cbv beta. now rewrite v24_value.
+    + replace n with 4 by lia. split; [cbn; lia|]. change ((1 <=? 4) && (4 <=? 4)) with true. cbv iota.
+      apply (oreader_map oread_int32 4 _ (fun v => [v])); [apply oread_int32_reader|auto].
+    + destruct ((1 <=? n) && (n <=? 4)) eqn:E; [lia|]. split; [lia|].
+      apply (oreader_map (fun s => COk (s, 2147483647)) 0 _ (fun v => [v])); [now apply oreader_const|auto].
+  - (* RLongUint *)
+    split; [lia|]. unfold oread_long_uint. rewrite (u8_small n) by lia.
+    remember (Z.to_nat n) as m eqn:Em. replace n with (Z.of_nat m) by lia.
+    apply (oreader_map (fun s => oread_long_uint_loop m s 0) (Z.of_nat m)
+             (fun s => lu_value 0 (obytes_at s (Z.of_nat m))) (fun v => [v]));
+      [apply oread_long_uint_loop_reader|auto].
+  - split; [lia|]. unfold oread_float.
+    apply (oreader_map oread_uint32 4 _ (fun v => [v])); [apply oread_uint32_reader|auto].
+  - split; [lia|]. unfold oread_double.
+    apply (oreader_map oread_uint64 8 _ (fun v => [v])); [apply oread_uint64_reader|auto].
+  - split; [lia|]. eapply oreader_val.
+    + apply (oreader_map oread_bool 1 (fun s => negb (be_value (obytes_at s 1) =? 0))
+               (fun v : bool => [if v then 1 else 0])); [apply oread_bool_reader|auto].
+    + intros s L H. cbv beta. now destruct (be_value (obytes_at s 1) =? 0).
+Qed.
+
+(** ** safety of every decoder call *)
+
+Definition osafe {A} (R : cur -> cres (cur * A)) (Q : A -> Prop) : Prop :=
+  forall s, owf s -> exists s' a, R s = COk (s', a) /\ owf s' /\ buf s' = buf s /\
+                                  (olatched s -> s' = s) /\ Q a.
+
+Lemma oreader_safe {A} (R : cur -> cres (cur * A)) k val Q : 0 <= k -> oreader R k val Q -> osafe R Q.
+Proof.
+  intros Hk (R1 & R2 & R3) s [L|L].
+  - assert (NL : olatched s -> False) by apply (olive_not_latched s L).
+    destruct (Z.le_gt_cases (pos s + k) (size s)) as [H|H].
+    + destruct (R3 s L H) as (E & Qa). eexists _, _. split; [exact E|].
+      split; [left; now apply olive_adv'|]. split; [reflexivity|]. split; [intros X; destruct (NL X)|exact Qa].
+    + destruct (R2 s L H) as (a & E & Qa). eexists _, _. split; [exact E|].
+      split; [right; apply oabort_live_latched; auto; unfold EOUTOFDATA; lia|].
+      rewrite oabort_live by auto. split; [reflexivity|]. split; [intros X; destruct (NL X)|exact Qa].
+  - destruct (R1 s L) as (a & E & Qa). exists s, a. split; [exact E|]. split; [now right|].
+    split; [reflexivity|]. split; auto.
+Qed.
+
+Lemma osafe_bind {A B} (R : cur -> cres (cur * A)) Q (K : cur -> A -> cres (cur * B)) Q' :
+  osafe R Q -> (forall a, Q a -> osafe (fun s => K s a) Q') ->
+  osafe (fun s => let+ (s1, a) := R s in K s1 a) Q'.
+Proof.
+  intros HR HK s W. destruct (HR s W) as (s1 & a & -> & W1 & B1 & K1 & Qa). cbn [cbind].
+  destruct (HK a Qa s1 W1) as (s2 & b & -> & W2 & B2 & K2 & Qb).
+  exists s2, b. split; [reflexivity|]. split; [exact W2|]. split; [congruence|]. split; [|exact Qb].
+  intros X. specialize (K1 X). subst s1. now apply K2.
+Qed.
+
+Lemma osafe_const {A} (c : A) (Q : A -> Prop) : Q c -> osafe (fun s => COk (s, c)) Q.
+Proof. intros HQ s W. exists s, c. repeat split; auto. Qed.
+
+Lemma osafe_Q {A} (R : cur -> cres (cur * A)) (Q Q' : A -> Prop) :
+  osafe R Q -> (forall a, Q a -> Q' a) -> osafe R Q'.
+Proof.
+  intros H HQ s W. destruct (H s W) as (s' & a & E & W' & B & K & Qa). exists s', a. repeat split; auto.
+Qed.
+
+Lemma oread_uint8_safe : osafe oread_uint8 (fun _ => True).
+Proof. apply (oreader_safe _ 1 _ _ ltac:(lia) oread_uint8_reader). Qed.
+Lemma oread_uint16_safe : osafe oread_uint16 (fun _ => True).
+Proof. apply (oreader_safe _ 2 _ _ ltac:(lia) oread_uint16_reader). Qed.
+Lemma oread_uint32_safe : osafe oread_uint32 (fun _ => True).
+Proof. apply (oreader_safe _ 4 _ _ ltac:(lia) oread_uint32_reader). Qed.
+Lemma oread_u24_safe :
+  osafe (fun s => let+ (s1, a) := oread_uint8 s in let+ (s2, b) := oread_uint16 s1 in COk (s2, v24 a b))
+        (fun _ => True).
+Proof. apply (oreader_safe _ 3 _ _ ltac:(lia) oread_u24_reader). Qed.
+
+Lemma oread_length_determinant_safe : osafe oread_length_determinant (fun _ => True).
+Proof.
+  unfold oread_length_determinant.
+  apply (osafe_bind oread_uint8 (fun _ => True)); [apply oread_uint8_safe|].
+  intros l _.
+  destruct (negb (Z.land l 128 =? 0)); [|now apply osafe_const].
+  destruct (Z.land l 127 =? 1); [apply oread_uint8_safe|].
+  destruct (Z.land l 127 =? 2); [apply oread_uint16_safe|].
+  destruct (Z.land l 127 =? 3); [apply oread_u24_safe|].
+  destruct (Z.land l 127 =? 4); [apply oread_uint32_safe|].
+  now apply osafe_const.
+Qed.
+
+(** decoder_read_tag: a failed read returns 0, which ends the loop *)
+Lemma tag_exit tag : (Z.land (Z.lor (u32 (Z.shiftl tag 8)) 0) 128 =? 128) = false.
+Proof.
+  rewrite Z.lor_0_r. replace (Z.land (u32 (Z.shiftl tag 8)) 128) with 0; [reflexivity|].
+  symmetry. apply Z.bits_inj'. intros i Hi. rewrite Z.land_spec, Z.bits_0.
+  change 128 with (2 ^ 7). rewrite Z.pow2_bits_eqb by lia.
+  destruct (Z.eqb_spec 7 i) as [<-|]; [|apply andb_false_r].
+  rewrite u32_pow, Z.testbit_mod_pow2 by lia. rewrite Z.shiftl_mul_pow2 by lia.
+  rewrite Z.mul_pow2_bits_low by lia. reflexivity.
+Qed.
+
+Lemma oread_tag_loop_safe : forall fuel s tag, owf s ->
+  (olive s -> size s - pos s + 1 <= Z.of_nat fuel) -> (1 <= fuel)%nat ->
+  exists s' a, oread_tag_loop fuel s tag = COk (s', a) /\ owf s' /\ buf s' = buf s /\
+               (olatched s -> s' = s).
+Proof.
+  induction fuel as [|f IH]; intros s tag W HF H1; [lia|].
+  cbn [oread_tag_loop]. destruct W as [L|L].
+  - assert (NL : olatched s -> False) by apply (olive_not_latched s L).
+    destruct (Z.le_gt_cases (pos s + 1) (size s)) as [R|R].
+    + rewrite oread_uint8_room by auto. cbn [cbind].
+      destruct (Z.land _ 128 =? 128).
+      * destruct (IH (adv s 1) (Z.lor (u32 (Z.shiftl tag 8)) (nthz (buf s) (pos s)))) as (s' & a & E & W' & B & _).
+        -- left. apply olive_adv'; auto; lia.
+        -- intros _. unfold adv; cbn [size pos]. specialize (HF L). lia.
+        -- specialize (HF L). lia.
+        -- exists s', a. split; [exact E|]. split; [exact W'|]. split; [exact B|]. intros X; destruct (NL X).
+      * eexists _, _. split; [reflexivity|]. split; [left; apply olive_adv'; auto; lia|].
+        split; [reflexivity|]. intros X; destruct (NL X).
+    + rewrite oread_uint8_noroom by auto. cbn [cbind]. rewrite tag_exit.
+      eexists _, _. split; [reflexivity|].
+      split; [right; apply oabort_live_latched; auto; unfold EOUTOFDATA; lia|].
+      rewrite oabort_live by auto. split; [reflexivity|]. intros X; destruct (NL X).
+  - rewrite oread_uint8_latched by auto. cbn [cbind]. rewrite tag_exit.
+    eexists _, _. split; [reflexivity|]. split; [now right|]. split; auto.
+Qed.
+
+Lemma oread_tag_safe : osafe oread_tag (fun _ => True).
+Proof.
+  intros s W. unfold oread_tag.
+  destruct (oread_uint8_safe s W) as (s1 & t & -> & W1 & B1 & K1 & _). cbn [cbind].
+  destruct (Z.land t 63 =? 63).
+  - destruct (oread_tag_loop_safe (length (buf s) + 2) s1 t W1) as (s2 & a & -> & W2 & B2 & K2).
+    + intros (L1 & L2 & _). rewrite B1 in L1. unfold len in L1. lia.
+    + lia.
+    + exists s2, a. split; [reflexivity|]. split; [exact W2|]. split; [congruence|]. split; [|exact I].
+      intros X. specialize (K1 X). subst s1. now apply K2.
+  - exists s1, t. repeat split; auto.
+Qed.
+
+Lemma odop_safe o : odop_ok o -> osafe (fun s => run_odop s o) (odop_res_ok o).
+Proof.
+  intros Ok. destruct (odop_len o) as [k|] eqn:EK.
+  - destruct (odop_reader o k Ok EK) as (Hk & R). now apply (oreader_safe _ k _ _ Hk R).
+  - destruct o; try discriminate; unfold run_odop, odop_res_ok.
+    + apply (osafe_bind oread_length_determinant (fun _ => True) (fun s' v => COk (s', [v])));
+        [apply oread_length_determinant_safe|]. intros a _. now apply osafe_const.
+    + apply (osafe_bind oread_tag (fun _ => True) (fun s' v => COk (s', [v])));
+        [apply oread_tag_safe|]. intros a _. now apply osafe_const.
+    + cbn [odop_ok] in Ok. intros s [L|L].
+      * eexists _, _. split; [reflexivity|]. split; [right; now apply oabort_live_latched|].
+        rewrite oabort_live by auto. split; [reflexivity|]. split; [|exact I].
+        intros X; destruct (olive_not_latched s L X).
+      * rewrite oabort_latched by auto. exists s, []. repeat split; auto. now right.
+Qed.
+
+(* ------------------------------------------------------------------ *)
+(** * Group 2: in bounds, latch (decoder) *)
+
+Theorem odop_in_bounds : forall s o, owf s -> odop_ok o ->
+  exists s' v, run_odop s o = COk (s', v) /\ owf s' /\ buf s' = buf s /\ (olatched s -> s' = s) /\
+               match o with RBytes cap _ => len v = cap | _ => True end.
+Proof. intros s o W Ok. exact (odop_safe o Ok s W). Qed.
+
+(** in particular decoder_read_tag never runs out of the model's fuel *)
+Corollary oread_tag_never_ub : forall s, owf s -> oread_tag s <> CUb /\ oread_tag s <> COob.
+Proof. intros s W. destruct (oread_tag_safe s W) as (s' & a & -> & _). split; discriminate. Qed.
+
+Theorem oer_helpers_in_bounds_dec : forall os s, owf s -> Forall odop_ok os ->
+  exists s' vs, run_odops s os = COk (s', vs) /\ owf s' /\ buf s' = buf s /\ (olatched s -> s' = s) /\
+    Forall2 (fun o v => match o with RBytes cap _ => len v = cap | _ => True end) os vs.
+Proof.
+  induction os as [|o os IH]; intros s W F.
+  - exists s, []. cbn [run_odops]. repeat split; auto.
+  - inversion F as [|? ? Ho Hos]; subst. cbn [run_odops].
+    destruct (odop_in_bounds s o W Ho) as (s1 & v & -> & W1 & B1 & K1 & Q1). cbn [cbind].
+    destruct (IH s1 W1 Hos) as (s2 & vs & -> & W2 & B2 & K2 & Q2). cbn [cbind].
+    exists s2, (v :: vs). split; [reflexivity|]. split; [exact W2|]. split; [congruence|].
+    split; [|constructor; auto].
+    intros H. specialize (K1 H). subst s1. now apply K2.
+Qed.
+
+(** the calls whose byte count is known from the arguments ([odop_len]: all but
+    the length determinant, the tag and abort) latch when the data is short *)
+Theorem oer_dec_overflow_latches : forall s o k, olive s -> odop_ok o -> odop_len o = Some k ->
+  size s < pos s + k ->
+  exists s' v, run_odop s o = COk (s', v) /\ olatched s' /\ oget_result s' = - EOUTOFDATA.
+Proof.
+  intros s o k L Ok EK R. destruct (odop_reader o k Ok EK) as (_ & _ & R2 & _).
+  destruct (R2 s L R) as (a & E & _). eexists _, _. split; [exact E|].
+  split; [apply oabort_live_latched; auto; unfold EOUTOFDATA; lia|].
+  rewrite oabort_live by auto. reflexivity.
+Qed.
+
+Lemma run_odops_app s os1 os2 :
+  run_odops s (os1 ++ os2) =
+  let+ (s1, vs1) := run_odops s os1 in
+  let+ (s2, vs2) := run_odops s1 os2 in COk (s2, vs1 ++ vs2).
+Proof.
+  revert s; induction os1 as [|o os1 IH]; intros s.
+  - cbn [app run_odops cbind]. destruct (run_odops s os2) as [[s2 vs2]| |]; reflexivity.
+  - cbn [app run_odops]. destruct (run_odop s o) as [[s1 v]| |]; cbn [cbind]; auto.
+    rewrite IH. destruct (run_odops s1 os1) as [[s2 vs]| |]; cbn [cbind]; auto.
+    destruct (run_odops s2 os2) as [[s3 vs3]| |]; reflexivity.
+Qed.
+
+Theorem oer_dec_latch_sticky : forall os1 os2 s s1 vs1, owf s ->
+  Forall odop_ok (os1 ++ os2) -> run_odops s os1 = COk (s1, vs1) -> olatched s1 ->
+  exists vs2, run_odops s (os1 ++ os2) = COk (s1, vs1 ++ vs2) /\ length vs2 = length os2.
+Proof.
+  intros os1 os2 s s1 vs1 W F E L. rewrite run_odops_app, E. cbn [cbind].
+  apply Forall_app in F. destruct F as [_ F2].
+  destruct (oer_helpers_in_bounds_dec os2 s1 (or_intror L) F2) as (s2 & vs2 & E2 & _ & _ & K & Q).
+  rewrite E2. cbn [cbind]. exists vs2. rewrite (K L). split; [reflexivity|].
+  symmetry. eapply Forall2_len; eauto.
+Qed.
+
+(** the decoder twin of [oeop_matches_spec] *)
+Theorem odop_matches_spec : forall s o k, olive s -> odop_ok o -> odop_len o = Some k ->
+  pos s + k <= size s -> run_odop s o = COk (adv s k, odop_val s o).
+Proof.
+  intros s o k L Ok EK R. destruct (odop_reader o k Ok EK) as (_ & _ & _ & R3).
+  now destruct (R3 s L R).
+Qed.
+
+(* ------------------------------------------------------------------ *)
+(** * Group 4: round trips *)
+
+(** After an encoder call, the octets under the old cursor are the appended ones. *)
+Lemma oroundtrip_bytes s o s' : olive s -> oeop_ok o -> oeop_is_abort o = false ->
+  pos s + oeop_bytes o <= size s -> run_oeop s o = COk s' ->
+  olive (mkCur (buf s') (size s) (pos s)) /\
+  obytes_at (mkCur (buf s') (size s) (pos s)) (oeop_bytes o) = oeop_spec o.
+Proof.
+  intros L Ok NA R E.
+  destruct (oeop_appender o Ok NA) as (_ & _ & P3).
+  pose proof (oeop_spec_len o Ok) as SL.
+  destruct (P3 s L ltac:(lia)) as (s1 & E1 & L1 & S1 & B1 & P1 & W1 & Pt).
+  rewrite E in E1. inversion E1; subst s1. clear E1.
+  pose proof L as (A1 & A2 & A3 & A4). pose proof L1 as (C1 & C2 & C3 & C4).
+  split.
+  - unfold olive, len in *. cbn [buf size pos]. rewrite B1. repeat split; auto; lia.
+  - unfold obytes_at. cbn [buf pos]. rewrite <- SL. unfold len. rewrite Nat2Z.id.
+    apply (patched_at _ (buf s)); auto; lia.
+Qed.
+
+(** the big-endian value of the [k] low octets of [v] *)
+Lemma be_value_acc_be_bytes k : forall acc v,
+  be_value_acc acc (be_bytes k v) = acc * 256 ^ Z.of_nat k + v mod 256 ^ Z.of_nat k.
+Proof.
+  induction k as [|k IH]; intros acc v.
+  - cbn [be_bytes be_value_acc]. change (256 ^ Z.of_nat 0) with 1. rewrite Z.mod_1_r. lia.
+  - cbn [be_bytes be_value_acc]. rewrite IH.
+    assert (P : 0 < 256 ^ Z.of_nat k) by (apply Z.pow_pos_nonneg; lia).
+    replace (Z.of_nat (S k)) with (Z.of_nat k + 1) by lia.
+    rewrite Z.pow_add_r by lia. change (256 ^ 1) with 256.
+    rewrite (Z.rem_mul_r v (256 ^ Z.of_nat k) 256) by lia.
+    rewrite Z.shiftr_div_pow2 by lia.
+    replace (2 ^ (8 * Z.of_nat k)) with (256 ^ Z.of_nat k)
+      by (rewrite Z.pow_mul_r by lia; reflexivity).
+    unfold u8. lia.
+Qed.
+
+Lemma be_value_be_bytes k v : 0 <= v < 256 ^ Z.of_nat k -> be_value (be_bytes k v) = v.
+Proof.
+  intros H. unfold be_value. rewrite be_value_acc_be_bytes. rewrite Z.mod_small by lia. lia.
+Qed.
+
+Lemma be_value_be_bytes_mod k v : be_value (be_bytes k v) = v mod 256 ^ Z.of_nat k.
+Proof. unfold be_value. rewrite be_value_acc_be_bytes. lia. Qed.
+
+(** the eight fixed-width pairs *)
+Inductive oint_pair : oeop -> odop -> Z -> Prop :=
+| OIP_U8 v : 0 <= v < 256 -> oint_pair (OU8 v) RU8 v
+| OIP_U16 v : 0 <= v < 65536 -> oint_pair (OU16 v) RU16 v
+| OIP_U32 v : 0 <= v < 4294967296 -> oint_pair (OU32 v) RU32 v
+| OIP_U64 v : 0 <= v < 18446744073709551616 -> oint_pair (OU64 v) RU64 v
+| OIP_I8 v : -128 <= v < 128 -> oint_pair (OI8 v) RI8 v
+| OIP_I16 v : -32768 <= v < 32768 -> oint_pair (OI16 v) RI16 v
+| OIP_I32 v : -2147483648 <= v < 2147483648 -> oint_pair (OI32 v) RI32 v
+| OIP_I64 v : -9223372036854775808 <= v < 9223372036854775808 -> oint_pair (OI64 v) RI64 v.
+
+Theorem oer_fixed_roundtrip : forall s o d v s', olive s -> oint_pair o d v ->
+  pos s + oeop_bytes o <= size s -> run_oeop s o = COk s' ->
+  run_odop (mkCur (buf s') (size s) (pos s)) d =
+  COk (mkCur (buf s') (size s) (pos s + oeop_bytes o), [v]).
+Proof.
+  intros s o d v s' L P R E.
+  assert (Ok : oeop_ok o) by (destruct P; exact I).
+  assert (NA : oeop_is_abort o = false) by (destruct P; reflexivity).
+  destruct (oroundtrip_bytes s o s' L Ok NA R E) as (Lt & Bt).
+  assert (EB : odop_len d = Some (oeop_bytes o)) by (destruct P; reflexivity).
+  assert (OkD : odop_ok d) by (destruct P; exact I).
+  rewrite (odop_matches_spec _ d (oeop_bytes o) Lt OkD EB) by (cbn [size pos]; lia).
+  unfold adv. cbn [buf size pos]. do 2 f_equal.
+  destruct P; cbn [odop_val oeop_bytes oeop_spec] in *; rewrite Bt, be_value_be_bytes_mod;
+    f_equal.
+  - change (256 ^ Z.of_nat 1) with 256. lia.
+  - change (256 ^ Z.of_nat 2) with 65536. lia.
+  - change (256 ^ Z.of_nat 4) with 4294967296. lia.
+  - change (256 ^ Z.of_nat 8) with 18446744073709551616. lia.
+  - change (256 ^ Z.of_nat 1) with 256. unfold s8. lia.
+  - change (256 ^ Z.of_nat 2) with 65536. unfold s16. lia.
+  - change (256 ^ Z.of_nat 4) with 4294967296. unfold s32. lia.
+  - change (256 ^ Z.of_nat 8) with 18446744073709551616. unfold s64. lia.
+Qed.
+
+(** from the [run_odop] wrapper back to the reader itself *)
+Lemma one_inv (r : cres (cur * Z)) c v :
+  (let+ (s', x) := r in COk (s', [x])) = COk (c, [v]) -> r = COk (c, v).
+Proof.
+  destruct r as [[s1 x]| |]; cbn [cbind]; intros H; try discriminate.
+  inversion H; subst. reflexivity.
+Qed.
+
+Theorem oer_uint_roundtrip : forall s v k s', olive s -> 1 <= k <= 4 -> 0 <= v < 256 ^ k ->
+  pos s + k <= size s -> oappend_uint s v k = COk s' ->
+  oread_uint (mkCur (buf s') (size s) (pos s)) k = COk (mkCur (buf s') (size s) (pos s + k), v).
+Proof.
+  intros s v k s' L Hk Hv R E.
+  assert (Ok : oeop_ok (OUint v k)) by (cbn [oeop_ok]; lia).
+  assert (EBy : oeop_bytes (OUint v k) = k).
+  { cbn [oeop_bytes]. destruct ((1 <=? k) && (k <=? 3)) eqn:X; lia. }
+  destruct (oroundtrip_bytes s (OUint v k) s' L Ok eq_refl ltac:(lia) E) as (Lt & Bt).
+  rewrite EBy in Bt. cbn [oeop_spec] in Bt.
+  replace (if (1 <=? k) && (k <=? 3) then k else 4) with k in Bt
+    by (destruct ((1 <=? k) && (k <=? 3)) eqn:X; lia).
+  apply one_inv. change (run_odop (mkCur (buf s') (size s) (pos s)) (RUint k) =
+    COk (mkCur (buf s') (size s) (pos s + k), [v])).
+  assert (EL : odop_len (RUint k) = Some k).
+  { cbn [odop_len]. destruct ((1 <=? k) && (k <=? 4)) eqn:X; [reflexivity|lia]. }
+  rewrite (odop_matches_spec _ (RUint k) k Lt ltac:(cbn [odop_ok]; lia) EL) by (cbn [size pos]; lia).
+  unfold adv. cbn [buf size pos odop_val]. do 2 f_equal.
+  destruct ((1 <=? k) && (k <=? 4)) eqn:X; [|lia].
+  rewrite Bt, be_value_be_bytes; [reflexivity|]. now rewrite Z2Nat.id by lia.
+Qed.
+
+(** splitting the octets under the cursor: the first one and the rest *)
+Lemma obytes_at_cons c K x r : olive c -> 1 <= K -> pos c + K <= size c ->
+  obytes_at c K = x :: r ->
+  oread_uint8 c = COk (adv c 1, x) /\ olive (adv c 1) /\ obytes_at (adv c 1) (K - 1) = r.
+Proof.
+  intros L HK R E.
+  replace K with (1 + (K - 1)) in E by lia.
+  rewrite obytes_at_app in E by (auto; lia).
+  rewrite obytes_at_1 in E by (auto; lia). cbn [app] in E. inversion E; subst.
+  split; [|split].
+  - rewrite oread_uint8_room by (auto; lia). reflexivity.
+  - apply olive_adv'; auto; lia.
+  - reflexivity.
+Qed.
+
+Theorem oer_length_determinant_roundtrip : forall s n s', olive s -> 0 <= n < 4294967296 ->
+  pos s + length_determinant_length n <= size s -> oappend_length_determinant s n = COk s' ->
+  oread_length_determinant (mkCur (buf s') (size s) (pos s)) =
+  COk (mkCur (buf s') (size s) (pos s + length_determinant_length n), n).
+Proof.
+  intros s n s' L Hn R E.
+  destruct (oroundtrip_bytes s (OLenDet n) s' L I eq_refl R E) as (Lt & Bt).
+  cbn [oeop_bytes oeop_spec] in Bt. cbv zeta in Bt.
+  set (c := mkCur (buf s') (size s) (pos s)) in *.
+  assert (Ec : forall j, mkCur (buf s') (size s) (pos s + j) = adv c j) by reflexivity.
+  rewrite Ec. revert R Bt.
+  unfold length_determinant_length. cbv zeta. unfold u32. rewrite Z.mod_small by lia.
+  change (size s) with (size c). change (pos s) with (pos c).
+  destruct (n <? 128) eqn:E1; [|destruct (n <? 256) eqn:E2;
+    [|destruct (n <? 65536) eqn:E3; [|destruct (n <? 16777216) eqn:E4]]]; intros R Bt;
+    (eapply (obytes_at_cons c) in Bt; [destruct Bt as (R8 & L1 & B1)|exact Lt|lia|exact R]);
+    unfold oread_length_determinant; rewrite R8; cbn [cbind].
+  - rewrite land_128_small by lia. reflexivity.
+  - change (negb (Z.land 129 128 =? 0)) with true. change (Z.land 129 127) with 1.
+    change (1 =? 1) with true. cbv iota.
+    eapply (obytes_at_cons (adv c 1)) in B1;
+      [destruct B1 as (-> & _ & _)|exact L1|lia|unfold adv; cbn [size pos]; lia].
+    rewrite adv_adv. reflexivity.
+  - change (negb (Z.land 130 128 =? 0)) with true. change (Z.land 130 127) with 2.
+    change (2 =? 1) with false. change (2 =? 2) with true. cbv iota.
+    destruct oread_uint16_reader as (_ & _ & R3).
+    destruct (R3 (adv c 1) L1 ltac:(unfold adv; cbn [size pos]; lia)) as (-> & _).
+    rewrite adv_adv. change (3 - 1) with 2 in B1. rewrite B1.
+    rewrite be_value_be_bytes by (change (256 ^ Z.of_nat 2) with 65536; lia). reflexivity.
+  - change (negb (Z.land 131 128 =? 0)) with true. change (Z.land 131 127) with 3.
+    change (3 =? 1) with false. change (3 =? 2) with false. change (3 =? 3) with true. cbv iota.
+    destruct oread_u24_reader as (_ & _ & R3).
+    assert (R1 : pos (adv c 1) + 3 <= size (adv c 1)) by (unfold adv; cbn [size pos]; lia).
+    destruct (R3 (adv c 1) L1 R1) as (E24 & _).
+    unfold v24 in E24. rewrite E24. cbn [cbind]. fold (v24 (be_value (obytes_at (adv c 1) 1))
+      (be_value (obytes_at (adv (adv c 1) 1) 2))).
+    rewrite v24_value by auto.
+    rewrite adv_adv. change (4 - 1) with 3 in B1. rewrite B1.
+    rewrite be_value_be_bytes by (change (256 ^ Z.of_nat 3) with 16777216; lia). reflexivity.
+  - change (negb (Z.land 132 128 =? 0)) with true. change (Z.land 132 127) with 4.
+    change (4 =? 1) with false. change (4 =? 2) with false. change (4 =? 3) with false.
+    change (4 =? 4) with true. cbv iota.
+    destruct oread_uint32_reader as (_ & _ & R3).
+    destruct (R3 (adv c 1) L1 ltac:(unfold adv; cbn [size pos]; lia)) as (-> & _).
+    rewrite adv_adv. change (5 - 1) with 4 in B1. rewrite B1.
+    rewrite be_value_be_bytes by (change (256 ^ Z.of_nat 4) with 4294967296; lia). reflexivity.
+Qed.
+
+(** decoder_read_long_uint computes the big-endian value as long as nothing is
+    shifted out of the 64 bit accumulator *)
+Lemma lu_value_be : forall l acc, bytes_ok l -> 0 <= acc ->
+  (acc + 1) * 256 ^ len l <= 18446744073709551616 -> lu_value acc l = be_value_acc acc l.
+Proof.
+  induction l as [|b r IH]; intros acc Bl Ha Hb; [reflexivity|].
+  inversion Bl as [|? ? Hb0 Br]; subst. unfold is_byte in Hb0.
+  cbn [lu_value be_value_acc].
+  assert (EL : len (b :: r) = len r + 1) by (unfold len; cbn [length]; lia).
+  rewrite EL in Hb. rewrite Z.pow_add_r in Hb by (pose proof (len_nonneg r); lia).
+  change (256 ^ 1) with 256 in Hb.
+  assert (P : 0 < 256 ^ len r) by (apply Z.pow_pos_nonneg; [lia|apply len_nonneg]).
+  assert (Hs : acc * 256 + 256 <= 18446744073709551616) by nia.
+  rewrite Z.shiftl_mul_pow2 by lia. rewrite u64_small by (change (2 ^ 8) with 256; lia).
+  rewrite Z.lor_comm. rewrite lor_mul_pow2_add by (change (2 ^ 8) with 256; lia).
+  change (2 ^ 8) with 256.
+  apply IH; auto; [lia|nia].
+Qed.
+
+Theorem oer_long_uint_roundtrip : forall s v k s', olive s -> 0 <= k <= 8 -> 0 <= v < 256 ^ k ->
+  pos s + k <= size s -> oappend_long_uint s v k = COk s' ->
+  oread_long_uint (mkCur (buf s') (size s) (pos s)) k = COk (mkCur (buf s') (size s) (pos s + k), v).
+Proof.
+  intros s v k s' L Hk Hv R E.
+  assert (Ok : oeop_ok (OLongUint v k)) by (cbn [oeop_ok]; lia).
+  destruct (oroundtrip_bytes s (OLongUint v k) s' L Ok eq_refl R E) as (Lt & Bt).
+  cbn [oeop_bytes oeop_spec] in Bt.
+  apply one_inv. change (run_odop (mkCur (buf s') (size s) (pos s)) (RLongUint k) =
+    COk (mkCur (buf s') (size s) (pos s + k), [v])).
+  rewrite (odop_matches_spec _ (RLongUint k) k Lt ltac:(cbn [odop_ok]; lia) eq_refl)
+    by (cbn [size pos]; lia).
+  unfold adv. cbn [buf size pos odop_val]. do 2 f_equal.
+  rewrite Bt. rewrite lu_value_be.
+  - f_equal. apply be_value_be_bytes. now rewrite Z2Nat.id by lia.
+  - apply obe_bytes_ok.
+  - lia.
+  - unfold len. rewrite obe_bytes_length, Z2Nat.id by lia.
+    change 18446744073709551616 with (256 ^ 8). rewrite Z.mul_1_l.
+    apply Z.pow_le_mono_r; lia.
+Qed.
+
+(** the sign test of the 3 octet form *)
+Lemma land_bit23 t : 0 <= t < 16777216 -> (Z.land t 8388608 =? 8388608) = (8388608 <=? t).
+Proof.
+  intros H.
+  assert (E : Z.land t (2 ^ 23) = if Z.testbit t 23 then 2 ^ 23 else 0).
+  { apply Z.bits_inj'. intros i Hi. rewrite Z.land_spec, Z.pow2_bits_eqb by lia.
+    destruct (Z.eqb_spec 23 i) as [<-|N].
+    - rewrite andb_true_r. destruct (Z.testbit t 23) eqn:T.
+      + now rewrite Z.pow2_bits_true by lia.
+      + now rewrite Z.bits_0.
+    - rewrite andb_false_r. destruct (Z.testbit t 23).
+      + now rewrite Z.pow2_bits_false by lia.
+      + now rewrite Z.bits_0. }
+  change (2 ^ 23) with 8388608 in E. rewrite E.
+  destruct (Z.testbit t 23) eqn:T.
+  - apply Z.testbit_true in T; [|lia]. change (2 ^ 23) with 8388608 in T. lia.
+  - apply Z.testbit_false in T; [|lia]. change (2 ^ 23) with 8388608 in T. lia.
+Qed.
+
+Lemma sext24_mod v : -8388608 <= v < 8388608 -> sext24 (v mod 16777216) = v.
+Proof.
+  intros H. unfold sext24.
+  rewrite land_bit23 by lia.
+  destruct (8388608 <=? v mod 16777216) eqn:E; unfold s32, u32; lia.
+Qed.
+
+Lemma oer_int_roundtrip_aux s v k s' (f : Z -> Z) : olive s -> 1 <= k <= 4 ->
+  pos s + k <= size s -> oappend_int s v k = COk s' ->
+  (forall c, odop_val c (RInt k) = [f (be_value (obytes_at c k))]) ->
+  f (v mod 256 ^ k) = v ->
+  oread_int (mkCur (buf s') (size s) (pos s)) k = COk (mkCur (buf s') (size s) (pos s + k), v).
+Proof.
+  intros L Hk R E HV Hf.
+  assert (Ok : oeop_ok (OInt v k)) by (cbn [oeop_ok]; lia).
+  assert (EBy : oeop_bytes (OInt v k) = k).
+  { cbn [oeop_bytes]. destruct ((1 <=? k) && (k <=? 3)) eqn:X; lia. }
+  destruct (oroundtrip_bytes s (OInt v k) s' L Ok eq_refl ltac:(lia) E) as (Lt & Bt).
+  rewrite EBy in Bt. cbn [oeop_spec] in Bt.
+  replace (if (1 <=? k) && (k <=? 3) then k else 4) with k in Bt
+    by (destruct ((1 <=? k) && (k <=? 3)) eqn:X; lia).
+  apply one_inv. change (run_odop (mkCur (buf s') (size s) (pos s)) (RInt k) =
+    COk (mkCur (buf s') (size s) (pos s + k), [v])).
+  assert (EL : odop_len (RInt k) = Some k).
+  { cbn [odop_len]. destruct ((1 <=? k) && (k <=? 4)) eqn:X; [reflexivity|lia]. }
+  rewrite (odop_matches_spec _ (RInt k) k Lt ltac:(cbn [odop_ok]; lia) EL) by (cbn [size pos]; lia).
+  unfold adv. cbn [buf size pos]. do 2 f_equal.
+  rewrite HV, Bt, be_value_be_bytes_mod. rewrite Z2Nat.id by lia. now rewrite Hf.
+Qed.
+
+Theorem oer_int_roundtrip : forall s v k s', olive s -> 1 <= k <= 4 ->
+  - (256 ^ k) / 2 <= v < 256 ^ k / 2 ->
+  pos s + k <= size s -> oappend_int s v k = COk s' ->
+  oread_int (mkCur (buf s') (size s) (pos s)) k = COk (mkCur (buf s') (size s) (pos s + k), v).
+Proof.
+  intros s v k s' L Hk Hv R E.
+  assert (K : k = 1 \/ k = 2 \/ k = 3 \/ k = 4) by lia.
+  destruct K as [-> | [-> | [-> | ->]]].
+  - apply (oer_int_roundtrip_aux s v 1 s' s8); auto; try lia.
+    change (256 ^ 1) with 256 in *. unfold s8. lia.
+  - apply (oer_int_roundtrip_aux s v 2 s' s16); auto; try lia.
+    change (256 ^ 2) with 65536 in *. unfold s16. lia.
+  - apply (oer_int_roundtrip_aux s v 3 s' sext24); auto; try lia.
+    change (256 ^ 3) with 16777216 in *. apply sext24_mod. lia.
+  - apply (oer_int_roundtrip_aux s v 4 s' s32); auto; try lia.
+    change (256 ^ 4) with 4294967296 in *. unfold s32. lia.
+Qed.
+
+(** enumerated_value_length: 0 selects the short form; otherwise it is the
+    least number of octets (1..4) whose two's complement range holds the value *)
+Theorem oer_enumerated_value_length_spec : forall v, -2147483648 <= v < 2147483648 ->
+  (enumerated_value_length v = 0 <-> 0 <= v < 128) /\
+  (~ (0 <= v < 128) ->
+   1 <= enumerated_value_length v <= 4 /\
+   - (256 ^ enumerated_value_length v) / 2 <= v < 256 ^ enumerated_value_length v / 2 /\
+   forall k, 1 <= k <= 4 -> - (256 ^ k) / 2 <= v < 256 ^ k / 2 -> enumerated_value_length v <= k).
+Proof.
+  intros v Hv. unfold enumerated_value_length. cbv zeta.
+  replace (s32 v) with v by (unfold s32; lia).
+  destruct ((0 <=? v) && (v <? 128)) eqn:E0.
+  { split; [split; intros; [lia|reflexivity]|]. intros N. lia. }
+  destruct ((-128 <=? v) && (v <? 128)) eqn:E1;
+    [|destruct ((-32768 <=? v) && (v <? 32768)) eqn:E2;
+      [|destruct ((-8388608 <=? v) && (v <? 8388608)) eqn:E3]];
+  (split; [split; intros; lia|]); intros _;
+  (split; [lia|]);
+  (split; [change (256 ^ 1) with 256; change (256 ^ 2) with 65536; change (256 ^ 3) with 16777216;
+           change (256 ^ 4) with 4294967296; lia|]);
+  intros k Hk; assert (K : k = 1 \/ k = 2 \/ k = 3 \/ k = 4) by lia;
+  destruct K as [-> | [-> | [-> | ->]]];
+  change (256 ^ 1) with 256; change (256 ^ 2) with 65536; change (256 ^ 3) with 16777216;
+  change (256 ^ 4) with 4294967296; lia.
+Qed.
+
+(* ------------------------------------------------------------------ *)
+(** * The length determinant octets are those of the X.696 specification model *)
+
+From Asn1V Require Oer.X696.
+
+Lemma be_bytes_snoc k : forall v, be_bytes (S k) v = be_bytes k (v / 256) ++ [u8 v].
+Proof.
+  induction k as [|k IH]; intros v.
+  - cbn [be_bytes app]. change (8 * Z.of_nat 0) with 0. now rewrite Z.shiftr_0_r.
+  - change (be_bytes (S (S k)) v) with (u8 (Z.shiftr v (8 * Z.of_nat (S k))) :: be_bytes (S k) v).
+    rewrite IH.
+    change (be_bytes (S k) (v / 256)) with
+      (u8 (Z.shiftr (v / 256) (8 * Z.of_nat k)) :: be_bytes k (v / 256)).
+    cbn [app]. f_equal. f_equal.
+    change 256 with (2 ^ 8). rewrite <- Z.shiftr_div_pow2 by lia.
+    rewrite Z.shiftr_shiftr by lia. f_equal. lia.
+Qed.
+
+Lemma x_digits_be_bytes k : forall v acc,
+  Oer.X696.x_digits_acc 256 k v acc = be_bytes k v ++ acc.
+Proof.
+  induction k as [|k IH]; intros v acc; [reflexivity|].
+  cbn [Oer.X696.x_digits_acc]. rewrite IH, be_bytes_snoc, <- app_assoc. reflexivity.
+Qed.
+
+Lemma x_octets_be_bytes k v : Oer.X696.x_octets k v = be_bytes (Z.to_nat k) v.
+Proof. unfold Oer.X696.x_octets. rewrite x_digits_be_bytes. apply app_nil_r. Qed.
+
+Lemma x_search_bound_4 n : 128 <= n -> exists f, Oer.X696.search_bound n = S (S (S (S f))).
+Proof.
+  intros H. unfold Oer.X696.search_bound. rewrite Z.abs_eq by lia.
+  assert (L : 7 <= Z.log2 n) by (change 7 with (Z.log2 128); apply Z.log2_le_mono; lia).
+  exists (Z.to_nat (Z.log2 n / 7 + 3) - 4)%nat. lia.
+Qed.
+
+Theorem oer_length_determinant_is_x696 : forall n, 0 <= n < 4294967296 ->
+  Some (oeop_spec (OLenDet n)) = Oer.X696.x_length n.
+Proof.
+  intros n Hn. unfold Oer.X696.x_length. cbn [oeop_spec]. cbv zeta.
+  unfold u32. rewrite Z.mod_small by lia.
+  destruct (n <? 0) eqn:E0; [lia|].
+  destruct (n <? 128) eqn:E1; [reflexivity|].
+  destruct (x_search_bound_4 n ltac:(lia)) as (f & Ef).
+  unfold Oer.X696.x_ulen, Oer.X696.x_len. rewrite Ef. cbn [Oer.X696.least_from].
+  change (1 + 1 + 1 + 1) with 4. change (1 + 1 + 1) with 3. change (1 + 1) with 2.
+  change (256 ^ 1) with 256. change (256 ^ 2) with 65536. change (256 ^ 3) with 16777216.
+  change (256 ^ 4) with 4294967296.
+  destruct (n <? 256) eqn:E2; [|destruct (n <? 65536) eqn:E3;
+    [|destruct (n <? 16777216) eqn:E4; [|destruct (n <? 4294967296) eqn:E5; [|lia]]]];
+    cbn [Oer.X696.obind]; rewrite x_octets_be_bytes.
+  - change (1 <? 128) with true. cbv iota. change (128 + 1) with 129. change (Z.to_nat 1) with 1%nat.
+    cbn [be_bytes]. change (8 * Z.of_nat 0) with 0. rewrite Z.shiftr_0_r, u8_small by lia. reflexivity.
+  - reflexivity.
+  - reflexivity.
+  - reflexivity.
+Qed.
+
+(* ------------------------------------------------------------------ *)
+(** * The hypotheses are satisfiable: a live cursor over 4 bytes *)
+
+Example oer_helpers_example :
+  let s := mkCur [0; 0; 0; 0] 4 0 in
+  olive s /\
+  run_oeops s [OU8 171; OLenDet 2; OBool true] = COk (mkCur [171; 2; 255; 0] 4 3).
+Proof.
+  cbv zeta. split.
+  - unfold olive, len, bytes_ok, is_byte. cbn [buf size pos length]. repeat split; try lia.
+    repeat constructor; lia.
+  - vm_compute. reflexivity.
 Qed.
